@@ -1,10 +1,13 @@
 package main
 
 import (
+	"bufio"
 	"bytes"
 	"fmt"
+	"io"
 	"runtime"
 	"strings"
+	"testing/iotest"
 
 	"gitlab.com/gomidi/midi/v2/smf"
 )
@@ -178,6 +181,34 @@ func judgeRead(b []byte, v *Verdict) string {
 		if a := m1.TotalAlloc - m0.TotalAlloc; a > allocBound(len(b)) {
 			v.Oracle = append(v.Oracle, fmt.Sprintf("ReadFrom allocated %d bytes for an input of %d bytes: %s", a, len(b), short(hx(b))))
 		}
+	}
+	// the same bytes from a source of another kind (no Len, no Stat, no Seek; buffered; a section of something larger)
+	kind := len(b)
+	for _, x := range b {
+		kind += int(x)
+	}
+	names := []string{"plain io.Reader", "bufio.Reader", "io.SectionReader", "one-byte reader"}
+	mk := func() io.Reader {
+		switch kind % 4 {
+		case 0:
+			return struct{ io.Reader }{bytes.NewReader(b)}
+		case 1:
+			return bufio.NewReader(bytes.NewReader(b))
+		case 2:
+			return io.NewSectionReader(bytes.NewReader(b), 0, int64(len(b)))
+		}
+		return iotest.OneByteReader(bytes.NewReader(b))
+	}
+	var m0, m1 runtime.MemStats
+	src := mk()
+	runtime.ReadMemStats(&m0)
+	p := try(func() { smf.ReadFrom(src) })
+	runtime.ReadMemStats(&m1)
+	if p != "" {
+		v.Oracle = append(v.Oracle, "ReadFrom("+names[kind%4]+") panicked on "+short(hx(b))+": "+p)
+	}
+	if a := m1.TotalAlloc - m0.TotalAlloc; a > allocBound(len(b)) {
+		v.Oracle = append(v.Oracle, fmt.Sprintf("ReadFrom(%s) allocated %d bytes for an input of %d bytes: %s", names[kind%4], a, len(b), short(hx(b))))
 	}
 	return class
 }
